@@ -452,6 +452,37 @@ def run(ctx):
     rule_segment_tag_scan(ctx, "C20.segment_tag_scan")
 
     # ------------------------------------------------------------------
+    R = "C20.tag_names_not_class_members"
+    ctx.rule(R, "a tag is stored by installing an accessor of its name on "
+             "the line instance: no class in the hierarchy of the line "
+             "classes (record classes, their mixins, Line itself) defines a "
+             "method, property or class attribute whose name is a valid tag "
+             "name (letter + letter/digit) -- a read-only property of that "
+             "name would make set('<name>', v) fail with AttributeError and "
+             "a method would be shadowed by the tag", floor=40)
+    import re as _re2
+    from ..model import record_classes as _rc
+    shape2 = _re2.compile(r"^[A-Za-z][A-Za-z0-9]$")
+    line_root = repo.cls("Line")
+    family = [c for c in repo.classes.values()
+              if line_root in c.mro or c in line_root.mro or
+              any(c in k.mro for k in _rc(repo))]
+    for c in sorted(family, key=lambda c: c.qualname):
+        ctx.instance(R)
+        names = sorted(n for n in list(c.methods) + list(c.attrs) +
+                       list(getattr(c, "generated", {})) +
+                       list(getattr(c, "setters", {}))
+                       if shape2.match(n))
+        ok = not names
+        ctx.oblige(ok)
+        if not ok:
+            ctx.violation(R, "class " + c.short, "member %s" % names[0],
+                          "the class defines %r, which is also a valid tag "
+                          "name: line.set(%r, v) / a parsed %s:Z:... tag "
+                          "collides with it" % (names, names[0], names[0]))
+    ctx.exhaustive[R] = True
+
+    # ------------------------------------------------------------------
     R = "C20.tag_names_not_aliased"
     ctx.rule(R, "set() resolves a FIELD_ALIAS key before it considers a new "
              "custom tag, so a tag-shaped alias makes that tag name "
